@@ -218,6 +218,19 @@ class Facts:
         r = re.compile(regex)
         return [b for b in self.bodies if r.search(strip_generics(b.path))]
 
+    def bodies_with(self, *subs, end=None, closures=False):
+        """Bodies whose path contains every substring (and ends with `end`); closures excluded unless asked."""
+        out = []
+        for b in self.bodies:
+            p = strip_generics(b.path)
+            if not closures and "{closure" in p:
+                continue
+            if end is not None and not (p.endswith("::" + end) or p == end):
+                continue
+            if all(x in p for x in subs):
+                out.append(b)
+        return out
+
     def adt(self, path):
         if path in self.adts:
             return self.adts[path]
